@@ -195,6 +195,14 @@ func (e *Eval) hardcoded(fr *Frame, cc *ssa.CallCommon, fn *ssa.Function, args [
 			e.oblige("lock@"+site+"/write-held", "lock", lockProps, cur, eq(h, "(- 1)"), "Unlock requires the write hold", "")
 		}
 		e.lockOrder(fr, st, cur, site, kind, args[0].A, mu)
+		switch kind {
+		case "rlock", "lock":
+			c.Assert(implies(cur, eq(h, "0")))
+		case "runlock":
+			c.Assert(implies(cur, "(>= "+h+" 1)"))
+		case "unlock":
+			c.Assert(implies(cur, eq(h, "(- 1)")))
+		}
 		e.lockEffect(st, kind, mu)
 		return ret()
 	case "sync/atomic.AddInt64", "sync/atomic.AddInt32", "sync/atomic.AddUint32", "sync/atomic.AddUint64":
